@@ -738,3 +738,379 @@ Proof.
     destruct (r_trace_invP cf (rclear cf) (rs_step_rclear cf Ht) k cs (init s0) Fresh H e He) as [[A _] [B _]].
     auto.
 Qed.
+
+(* ---- the generic manager / trainer theorems, instantiated ----------------------------------------- *)
+(* the configuration names its target: the agent listed at rc_target is the TargetAgent *)
+Definition target_ok (cf : rcfg) : Prop := exists att, kind_of cf (rc_target cf) = Some (KTarget att).
+
+Lemma target_not_runner cf : target_ok cf -> is_runner cf (rc_target cf) = false.
+Proof. intros (att & E). unfold is_runner. rewrite E. reflexivity. Qed.
+
+Lemma target_learning cf : target_ok cf -> is_learning cf (rc_target cf) = true.
+Proof. intros (att & E). unfold is_learning. rewrite E. reflexivity. Qed.
+
+Lemma runner_not_target cf i : target_ok cf -> is_runner cf i = true -> i <> rc_target cf.
+Proof. intros T H E. rewrite E, (target_not_runner cf T) in H. discriminate. Qed.
+
+Lemma reach_order_nonempty cf : target_ok cf -> order (reach_sim cf) <> [].
+Proof.
+  intros T E. pose proof (target_learning cf T) as Hl.
+  assert (Hin : In (rc_target cf) (order (reach_sim cf))).
+  { apply order_In_iff. split; [|exact Hl]. apply agents_In. cbn [reach_sim sim_n].
+    destruct T as (att & Ek). unfold kind_of in Ek.
+    destruct (nth_error (rc_agents cf) (rc_target cf)) eqn:En; [|discriminate].
+    apply nth_error_Some. congruence. }
+  rewrite E in Hin. destruct Hin.
+Qed.
+
+Theorem reach_done_once_turn cf s0 cs :
+  in_protocol (trace (reach_sim cf) MTurn (init s0) Fresh cs) ->
+  NoDup (ep_dones (trace (reach_sim cf) MTurn (init s0) Fresh cs) []).
+Proof. apply once_turn, reach_done_stable. Qed.
+
+Theorem reach_trainer_ok cf k : target_ok cf -> k = MAll \/ k = MTurn ->
+  Trainer_proofs.tk k /\ Trainer_proofs.sim_ok (reach_sim cf) k.
+Proof.
+  intros T Hk. split; [unfold Trainer_proofs.tk; tauto|]. unfold Trainer_proofs.sim_ok.
+  split; [intros _; apply reach_done_stable|]. split.
+  - intros ->. destruct Hk; discriminate.
+  - intros _. apply reach_order_nonempty, T.
+Qed.
+
+(* C16 over the reach-the-target simulation *)
+Theorem reach_trainer_never_fails PS cf pmap (pol_act : PS -> nat -> list (list Z) -> ract * PS)
+        pol_reset shuf h k m ps :
+  target_ok cf -> k = MAll \/ k = MTurn ->
+  er_status (generate_episode (reach_sim cf) pmap pol_act pol_reset shuf h k m ps) = EOk /\
+  exists obs, er_reset (generate_episode (reach_sim cf) pmap pol_act pol_reset shuf h k m ps) = RObs obs.
+Proof.
+  intros T Hk. destruct (reach_trainer_ok cf k T Hk) as [Tk S].
+  apply Trainer_proofs.never_fails; assumption.
+Qed.
+
+(* C08 over the reach-the-target simulation: an episode after reset does not depend on the manager's
+   past, for every later call list *)
+Theorem reach_episode_indistinguishable cf k m1 m2 cs :
+  target_ok cf -> k <> MTurnPrefix ->
+  rs_reset cf (m_sim m1) = rs_reset cf (m_sim m2) ->
+  fst (run (reach_sim cf) k m1 (CReset :: cs)) = fst (run (reach_sim cf) k m2 (CReset :: cs)).
+Proof.
+  intros T Hk E. apply Reset_proofs.episode_indistinguishable; [exact Hk| |exact E].
+  intros _. apply reach_order_nonempty, T.
+Qed.
+
+Theorem reach_steps_turn cf s0 cs :
+  in_protocol (trace (reach_sim cf) MTurn (init s0) Fresh cs) ->
+  forall e acts sh, In e (trace (reach_sim cf) MTurn (init s0) Fresh cs) -> te_call e = CStep acts sh ->
+    match te_resp e with
+    | ROut o =>
+        wfo o /\ NoDup (keys o) /\ (forall a, In a (keys o) -> ~ In a (m_done (te_pre e))) /\
+        ~ submits_done (m_done (te_pre e)) acts /\ incl (m_done (te_pre e)) (m_done (te_post e)) /\
+        greach (reach_sim cf) (rs_step cf (m_sim (te_pre e)) acts) (m_sim (te_post e)) /\
+        o_all o = rs_all cf (rs_step cf (m_sim (te_pre e)) acts)
+                  || all_in (reach_sim cf) (m_done (te_post e)) /\
+        (o_all o = false -> forall a, In (a, true) (o_done o) -> In a (m_done (te_post e)))
+    | RObs _ => False
+    | _ => te_post e = te_pre e
+    end.
+Proof.
+  intros Hp e acts sh He Hc. pose proof (steps_ok_turn (reach_sim cf) s0 cs Hp e acts sh He Hc) as H.
+  destruct (te_resp e); auto. destruct H as (H1 & H2 & H3 & H4 & H5 & H6 & H7 & H8).
+  split; [exact H1|]. split; [exact H2|]. split; [exact H3|]. split; [exact H4|].
+  split; [exact H5|]. split; [exact H6|]. split; [exact H7|]. apply H8, reach_done_stable.
+Qed.
+
+Theorem reach_invariants_turn cf s0 cs :
+  rinv (bs_grid s0) -> Forall rinv (bs_starts s0) ->
+  in_protocol (trace (reach_sim cf) MTurn (init s0) Fresh cs) ->
+  forall e, In e (trace (reach_sim cf) MTurn (init s0) Fresh cs) ->
+    (te_ph e = Live -> tinv (reach_sim cf) (te_pre e)) /\
+    rinv (bs_grid (m_sim (te_pre e))) /\ rinv (bs_grid (m_sim (te_post e))) /\
+    do_call (reach_sim cf) MTurn (te_pre e) (te_call e) = (te_resp e, te_post e).
+Proof.
+  intros G Gs Hp e He.
+  destruct (hist_inv_turn (reach_sim cf) s0 cs Hp e He) as (_ & _ & T & D).
+  destruct (proj2 (reach_rinv_reachable cf MTurn s0 cs G Gs) e He) as [A B]. auto.
+Qed.
+
+Theorem reach_invariants_all cf s0 cs :
+  rinv (bs_grid s0) -> Forall rinv (bs_starts s0) ->
+  in_protocol (trace (reach_sim cf) MAll (init s0) Fresh cs) ->
+  forall e, In e (trace (reach_sim cf) MAll (init s0) Fresh cs) ->
+    (te_ph e <> Fresh -> incl (nonlearning (reach_sim cf)) (m_done (te_pre e))) /\
+    rinv (bs_grid (m_sim (te_pre e))) /\ rinv (bs_grid (m_sim (te_post e))) /\
+    do_call (reach_sim cf) MAll (te_pre e) (te_call e) = (te_resp e, te_post e) /\
+    NoDup (ep_dones (trace (reach_sim cf) MAll (init s0) Fresh cs) []).
+Proof.
+  intros G Gs Hp e He.
+  destruct (hist_inv_all (reach_sim cf) s0 cs Hp e He) as (N & D).
+  destruct (proj2 (reach_rinv_reachable cf MAll s0 cs G Gs) e He) as [A B].
+  split; [exact N|]. split; [exact A|]. split; [exact B|]. split; [exact D|]. apply once_all, Hp.
+Qed.
+
+(* ---- manager o simulation: what a done flag reported for a runner says about the grid ------------ *)
+Lemma rs_done_runner cf st i a t :
+  is_runner cf i = true -> i <> rc_target cf ->
+  agent (bs_grid st) i = Some a -> agent (bs_grid st) (rc_target cf) = Some t ->
+  rs_done cf st i = negb (a_active a) || Done.pos_eqb (a_pos a) (a_pos t).
+Proof.
+  intros Hr N Ha Ht. unfold rs_done. unfold is_runner in Hr.
+  destruct (kind_of cf i) as [[|att|]|]; try discriminate.
+  rewrite (target_done_spec cf _ i N), Ha, Ht. cbn [Done.get_done ob].
+  unfold Done.active_done, to_pop. unfold agent in Ha. rewrite nth_error_map, Ha. reflexivity.
+Qed.
+
+Lemma done_runner_absent cf g i a t b :
+  is_runner cf i = true -> agent g i = Some a -> agent g (rc_target cf) = Some t ->
+  b = negb (a_active a) || Done.pos_eqb (a_pos a) (a_pos t) -> b = true -> rclear cf g ->
+  a_active a = false /\ forall p, ~ In i (cell_get (g_cells g) p).
+Proof.
+  intros Hr Ha Ht Eb Hb [G C].
+  assert (Hin : a_active a = false).
+  { specialize (C i Hr). unfold on_target in C. rewrite Ha, Ht in C.
+    destruct (a_active a); [|reflexivity]. cbn in Eb, C. congruence. }
+  split; [exact Hin|]. intros p Hp.
+  destruct (rinv_readable g G) as (_ & H2 & _). destruct (H2 p i Hp) as (a' & Ha' & A & _). congruence.
+Qed.
+
+(* AllStepManager: the done entry of a runner in an accepted step is `not active or on the target's
+   cell` in the grid the step leaves; a reported-done runner is inactive and in no cell *)
+Theorem reach_all_done_entries cf m acts sh o m' :
+  all_step (reach_sim cf) m acts sh = (ROut o, m') ->
+  forall a b rec t, In (a, b) (o_done o) -> is_runner cf a = true -> a <> rc_target cf ->
+    agent (bs_grid (m_sim m')) a = Some rec -> agent (bs_grid (m_sim m')) (rc_target cf) = Some t ->
+    b = negb (a_active rec) || Done.pos_eqb (a_pos rec) (a_pos t) /\
+    (b = true -> rclear cf (bs_grid (m_sim m')) ->
+     a_active rec = false /\ forall p, ~ In a (cell_get (g_cells (bs_grid (m_sim m'))) p)).
+Proof.
+  intros H a b rec t Hin Hr N Hrec Ht.
+  destruct (existsb (fun kv => memb (fst kv) (m_done m)) acts) eqn:E.
+  - rewrite (all_step_reject (reach_sim cf) m acts sh E) in H. discriminate.
+  - destruct (all_step_accept (reach_sim cf) m acts sh E) as (o1 & m1 & E1 & _ & _ & _ & _ & _ & Hd).
+    rewrite E1 in H. injection H as <- <-. rewrite Hd in Hin. apply in_map_iff in Hin.
+    destruct Hin as (a' & Ea & _). injection Ea as <- <-.
+    cbn [reach_sim sim_done]. pose proof (rs_done_runner cf _ _ rec t Hr N Hrec Ht) as Ed.
+    split; [exact Ed|]. intros Hb C. apply (done_runner_absent cf _ _ rec t _ Hr Hrec Ht Ed Hb C).
+Qed.
+
+(* TurnBasedManager, simulation not finished: the same for every entry the turn search reports *)
+Theorem reach_turn_done_entries cf m acts o m' :
+  tinv (reach_sim cf) m -> turn_step (reach_sim cf) m acts = (ROut o, m') ->
+  rs_all cf (rs_step cf (m_sim m) acts) = false ->
+  forall a b rec t, In (a, b) (o_done o) -> is_runner cf a = true -> a <> rc_target cf ->
+    agent (bs_grid (m_sim m')) a = Some rec -> agent (bs_grid (m_sim m')) (rc_target cf) = Some t ->
+    b = negb (a_active rec) || Done.pos_eqb (a_pos rec) (a_pos t) /\
+    (b = true -> rclear cf (bs_grid (m_sim m')) ->
+     a_active rec = false /\ forall p, ~ In a (cell_get (g_cells (bs_grid (m_sim m'))) p)).
+Proof.
+  intros T H Hall a b rec t Hin Hr N Hrec Ht.
+  destruct (turn_step_cases (reach_sim cf) m acts T) as [[_ E]|[[_ E]|(_ & _ & o1 & m1 & E & B & _)]];
+    rewrite E in H; try discriminate. injection H as <- <-.
+  assert (Hb : b = rs_done cf (m_sim m1) a).
+  { destruct B as [Ha|ks Hs SP]; [cbn [reach_sim sim_all sim_step] in Ha; congruence|].
+    destruct (sp_entries _ _ _ _ _ _ _ _ _ SP) as (dl & Ed & _ & Hv & _).
+    cbn [empty_out o_done app] in Ed. rewrite Ed in Hin.
+    rewrite (Hv (reach_done_stable cf) a b Hin).
+    symmetry. apply (reach_done_stable cf _ _ a (sp_greach _ _ _ _ _ _ _ _ _ SP)). }
+  rewrite (rs_done_runner cf _ _ rec t Hr N Hrec Ht) in Hb. split; [exact Hb|].
+  intros Hb1 C. apply (done_runner_absent cf _ _ rec t _ Hr Hrec Ht Hb Hb1 C).
+Qed.
+
+(* ---- the checker accepts the model's records ------------------------------------------------------- *)
+(* the relaxed invariant, every active agent placed, and the dimensions / table of the grid *)
+Definition rgood (rows cols : Z) (ov : otable) (g : gstate) : Prop :=
+  rinv g /\ all_placed g /\ dims rows cols ov g.
+
+Lemma rgood_srel rows cols ov s s' : srel s s' -> rinv s' -> rgood rows cols ov s -> rgood rows cols ov s'.
+Proof.
+  intros R G' (_ & Pl & D1 & D2 & D3). split; [exact G'|]. split.
+  - apply all_placed_posd. apply (posd_srel s s' R). apply all_placed_posd, Pl.
+  - destruct R as (R1 & R2 & R3 & _). unfold dims. repeat split; congruence.
+Qed.
+
+Lemma rgood_attack rows cols ov vis s cf att o act : rgood rows cols ov s ->
+  match process_attack vis s cf att o act with POk _ _ s' _ => rgood rows cols ov s' | _ => True end.
+Proof.
+  intros H. pose proof (rinv_attack vis s cf att o act (proj1 H)) as G.
+  pose proof (srel_process_attack vis s cf att o act) as R.
+  destruct (process_attack vis s cf att o act); [|exact I|exact I].
+  apply (rgood_srel rows cols ov s s0 R G H).
+Qed.
+
+Lemma rgood_move rows cols ov s i d : rgood rows cols ov s ->
+  match move_by s i d with MOk _ s' => rgood rows cols ov s' | _ => True end.
+Proof.
+  intros H. pose proof (rinv_move s i d (proj1 H)) as G. pose proof (srel_move_by s i d) as R.
+  destruct (move_by s i d); [|exact I|exact I|exact I].
+  apply (rgood_srel rows cols ov s s0 R G H).
+Qed.
+
+Lemma rgood_leave rows cols ov s i a q g1 : rgood rows cols ov s -> agent s i = Some a ->
+  a_active a = true -> a_pos a = Some q -> Grid.remove s i q = Some g1 ->
+  rgood rows cols ov (set_agent g1 i (with_active a false)).
+Proof.
+  intros H Ha Hact Hpos R. apply (rgood_srel rows cols ov s); [|apply (rinv_leave_x s i a q g1 (proj1 H) Ha Hact Hpos R)|exact H].
+  apply srel_trans with g1; [apply (srel_remove _ _ _ _ R)|].
+  apply srel_set_agent with a; [unfold agent; rewrite (hb_remove _ _ _ _ R); exact Ha|].
+  unfold arel, with_active. cbn. repeat split; auto; try tauto; try discriminate.
+Qed.
+
+Theorem rs_step_rgood rows cols ov cf st acts :
+  rgood rows cols ov (bs_grid st) -> rgood rows cols ov (bs_grid (rs_step cf st acts)).
+Proof.
+  apply (rs_step_P (rgood rows cols ov) (rgood_attack rows cols ov) (rgood_move rows cols ov)
+                   (rgood_leave rows cols ov)).
+Qed.
+
+Lemma all_placed_zh s : all_placed s -> all_placed (zh s).
+Proof.
+  intros H a' Hin Hact. cbn [zh g_agents] in Hin. apply in_map_iff in Hin as (a & <- & Hin).
+  rewrite zha_active in Hact. rewrite zha_pos. apply (H a Hin Hact).
+Qed.
+
+Theorem rinvb_complete s : rinv s -> all_placed s -> rinvb s = 0.
+Proof.
+  intros [G H] Pl. unfold rinvb.
+  assert (E : forallb hb_b (g_agents s) = true).
+  { apply forallb_forall. intros a Ha. rewrite Forall_forall in H. destruct (H a Ha) as [H1 H2].
+    unfold hb_b. apply andb_true_iff. split; apply Z.leb_le; assumption. }
+  rewrite E. cbn [negb]. apply ginvb_complete; [exact G|apply all_placed_zh, Pl].
+Qed.
+
+Lemma rinvb_sim s1 s2 : sim s1 s2 -> rinvb s1 = rinvb s2.
+Proof.
+  intros [(E1 & E2 & E3 & E4) Hc]. unfold rinvb. rewrite E4.
+  destruct (negb (forallb hb_b (g_agents s2))); [reflexivity|]. apply ginvb_sim.
+  split; [unfold hdr; cbn [zh g_rows g_cols g_ov g_agents]; rewrite E4; auto|].
+  intros p Hp. cbn [zh g_cells]. apply Hc. exact Hp.
+Qed.
+
+Lemma on_target_agents cf g1 g2 i : g_agents g1 = g_agents g2 -> on_target cf g1 i = on_target cf g2 i.
+Proof. intros E. unfold on_target, agent. rewrite E. reflexivity. Qed.
+
+Lemma forallb_ext' {X} (f g : X -> bool) l : (forall x, f x = g x) -> forallb f l = forallb g l.
+Proof. intros H. induction l as [|x l IH]; cbn; [reflexivity|]. rewrite H, IH. reflexivity. Qed.
+
+Lemma arrival_okb_agents cf g1 g1' g2 g2' : g_agents g1 = g_agents g1' -> g_agents g2 = g_agents g2' ->
+  arrival_okb cf g1 g2 = arrival_okb cf g1' g2'.
+Proof.
+  intros E1 E2. unfold arrival_okb. rewrite E2. apply forallb_ext'. intros i.
+  rewrite (on_target_agents cf g2 g2' i E2), (on_target_agents cf g1 g1' i E1).
+  unfold pos_of, agent. rewrite E1, E2. reflexivity.
+Qed.
+
+Lemma optcell_eqb_refl p : optcell_eqb p p = true.
+Proof. destruct p as [q|]; [apply cell_eqb_refl|reflexivity]. Qed.
+
+Lemma arrival_okb_complete cf g g' : arrival cf g g' -> arrival_okb cf g g' = true.
+Proof.
+  intros A. unfold arrival_okb. apply forallb_forall. intros i _.
+  destruct (is_runner cf i) eqn:Hr; [|reflexivity]. destruct (on_target cf g' i) eqn:Hon; [|reflexivity].
+  destruct (A i Hr Hon) as [H1 H2]. rewrite H1, H2, optcell_eqb_refl. reflexivity.
+Qed.
+
+(* a step call of the two managers of the wire: the simulation is left alone or stepped once *)
+Lemma r_step_call_reach cf k m acts sh r m' : k = MAll \/ k = MTurn ->
+  do_call (reach_sim cf) k m (CStep acts sh) = (r, m') ->
+  m_sim m' = m_sim m \/ exists l, greach (reach_sim cf) (rs_step cf (m_sim m) l) (m_sim m').
+Proof.
+  intros [->| ->] H; cbn [do_call] in H.
+  - destruct (existsb (fun kv => memb (fst kv) (m_done m)) acts) eqn:E.
+    + rewrite (all_step_reject (reach_sim cf) m acts sh E) in H. injection H as <- <-. left. reflexivity.
+    + destruct (all_step_accept (reach_sim cf) m acts sh E) as (o1 & m1 & E1 & _ & _ & G & _).
+      rewrite E1 in H. injection H as <- <-. right. eexists. exact G.
+  - unfold turn_step, turn_step_gen in H. destruct acts as [|[a0 v0] acts'].
+    + injection H as <- <-. left. reflexivity.
+    + destruct (existsb _ _); [injection H as <- <-; left; reflexivity|].
+      destruct (sim_all _ _).
+      * destruct (flush _ _ _ _ _) as [o s2] eqn:Ef.
+        destruct (flush_branch _ _ _ _ _ Ef) as (_ & _ & _ & G).
+        injection H as <- <-. right. eexists. exact G.
+      * destruct (turn_search _ _ _ _ _ _) as [o s2 d p|] eqn:Es; injection H as <- <-.
+        -- right. eexists. apply (turn_search_greach _ _ _ _ _ _ _ _ _ _ Es).
+        -- left. reflexivity.
+Qed.
+
+Lemma r_step_call_arrival cf k m acts sh r m' : is_runner cf (rc_target cf) = false ->
+  k = MAll \/ k = MTurn -> rinv (bs_grid (m_sim m)) ->
+  do_call (reach_sim cf) k m (CStep acts sh) = (r, m') ->
+  arrival cf (bs_grid (m_sim m)) (bs_grid (m_sim m')).
+Proof.
+  intros Ht Hk G H. destruct (r_step_call_reach cf k m acts sh r m' Hk H) as [E|[l Q]].
+  - rewrite E. apply arrival_refl.
+  - destruct (r_greach_frame cf _ _ Q) as [E _]. rewrite E. apply rs_step_arrival; assumption.
+Qed.
+
+Lemma chk_reach_recs_ok cf rows cols ov k : is_runner cf (rc_target cf) = false -> k = MAll \/ k = MTurn ->
+  forall cs m prev, rs_invP (rgood rows cols ov) (m_sim m) -> g_agents prev = g_agents (bs_grid (m_sim m)) ->
+  chk_reach_recs cf rows cols ov prev cs (map enc_record (fst (rrun_snap (reach_sim cf) k m cs))) = 0.
+Proof.
+  intros Ht Hk. induction cs as [|c cs IH]; intros m prev H Ep; cbn [rrun_snap]; [reflexivity|].
+  destruct (do_call (reach_sim cf) k m c) as [r m1] eqn:E.
+  pose proof (r_do_call_invP cf (rgood rows cols ov) (rs_step_rgood rows cols ov cf) k m c r m1 E H) as H1.
+  specialize (IH m1). destruct (rrun_snap (reach_sim cf) k m1 cs) as [rs m2]. cbn [fst map enc_record snd] in *.
+  cbn [chk_reach_recs]. unfold enc_record at 1. cbn [fst snd]. destruct H1 as [(G1 & Pl1 & D1) Hs1].
+  destruct (dec_start_enc rows cols ov (bs_grid (m_sim m1)) D1) as (sh & -> & S).
+  rewrite (rinvb_sim _ _ S), (rinvb_complete _ G1 Pl1). cbn [Z.eqb negb].
+  assert (Ea : g_agents sh = g_agents (bs_grid (m_sim m1))) by (destruct S as [(_ & _ & _ & Ea) _]; exact Ea).
+  assert (Hc : match c with CStep _ _ => negb (arrival_okb cf prev sh) | CReset => false end = false).
+  { destruct c as [|acts shf]; [reflexivity|].
+    rewrite (arrival_okb_agents cf prev (bs_grid (m_sim m)) sh (bs_grid (m_sim m1)) Ep Ea).
+    rewrite arrival_okb_complete; [reflexivity|].
+    apply (r_step_call_arrival cf k m acts shf r m1 Ht Hk (proj1 (proj1 H)) E). }
+  rewrite Hc. apply IH; [split; [split; [exact G1|split; assumption]|exact Hs1]|exact Ea].
+Qed.
+
+Lemma rinv_empty rows cols ov : NoDup (map fst ov) -> rinv (empty_grid rows cols ov []).
+Proof.
+  intros Hnd. split; [|constructor].
+  change (zh (empty_grid rows cols ov [])) with (empty_grid rows cols ov []).
+  apply ginv_empty; [intros a b; apply overlap_symmetric, Hnd|constructor|constructor].
+Qed.
+
+(* the wire-level statement: on every decodable input whose table has distinct keys, whose
+   configuration does not list the target as a runner, whose recorded start states satisfy the
+   relaxed invariant with every active agent placed, and on which the oracle streams were
+   admissible (flag not raised), the extracted checker answers 1 on the extracted model's own
+   output *)
+Theorem run_chk_reach_model xin i :
+  dec_reach xin = Some i -> NoDup (map fst (ri_ov i)) ->
+  is_runner (ri_cfg i) (rc_target (ri_cfg i)) = false ->
+  Forall (fun g => rinv g /\ all_placed g) (bs_starts (ri_init i)) ->
+  bs_bad (m_sim (snd (reach_records reach_sim i))) = false ->
+  run_chk_reach (L [xin; run_reach xin]) = A 1.
+Proof.
+  intros E Hnd Ht Hst Hbad. unfold run_chk_reach, run_reach, run_reach_gen. rewrite E.
+  assert (Hgood : rs_invP (rgood (ri_rows i) (ri_cols i) (ri_ov i)) (ri_init i) /\
+                  (ri_kind i = MAll \/ ri_kind i = MTurn)).
+  { unfold dec_reach in E.
+    destruct xin as [z|l]; [discriminate|].
+    destruct l as [|[rows|?] l]; try discriminate. destruct l as [|[cols|?] l]; try discriminate.
+    destruct l as [|xov l]; try discriminate. destruct l as [|xcf l]; try discriminate.
+    destruct l as [|[?|sts] l]; try discriminate. destruct l as [|us l]; try discriminate.
+    destruct l as [|[?|chs] l]; try discriminate. destruct l as [|ocs l]; try discriminate.
+    destruct l as [|[kind|?] l]; try discriminate. destruct l as [|[?|cs] l]; try discriminate.
+    destruct l; [|discriminate].
+    destruct (dec_ov xov) as [ov'|]; [|discriminate].
+    destruct (dec_rcfg xcf) as [cf'|]; [|discriminate].
+    destruct (all_some (map (dec_start rows cols ov') sts)) as [sts'|] eqn:Es; [|discriminate].
+    destruct (sxZs us) as [us'|]; [|discriminate].
+    destruct (all_some (map sxNats chs)) as [chs'|]; [|discriminate].
+    destruct (sxZs ocs) as [ocs'|]; [|discriminate].
+    destruct (all_some (map dec_rcall cs)) as [cs'|]; [|discriminate].
+    destruct ((rows <=? 0) || (cols <=? 0) || negb ((kind =? 0) || (kind =? 1))); [discriminate|].
+    injection E as <-. cbn [ri_rows ri_cols ri_ov ri_init ri_cfg ri_kind] in *.
+    split; [|destruct (kind =? 0); auto].
+    split; cbn [bs_init bs_grid bs_starts] in *.
+    - split; [apply rinv_empty, Hnd|]. split; [intros a []|]. unfold dims. cbn. auto.
+    - pose proof (all_some_Forall (dec_start rows cols ov') (dims rows cols ov')
+                                  (dec_start_dims rows cols ov') sts sts' Es) as Hd.
+      rewrite Forall_forall in *. intros g Hg.
+      destruct (Hst g Hg) as [G Pl]. split; [exact G|]. split; [exact Pl|apply Hd, Hg]. }
+  destruct Hgood as [Hgood Hk].
+  pose proof (chk_reach_recs_ok (ri_cfg i) (ri_rows i) (ri_cols i) (ri_ov i) (ri_kind i) Ht Hk
+                                (ri_calls i) (init (ri_init i)) (bs_grid (ri_init i)) Hgood eq_refl) as Hrs.
+  unfold reach_records in *.
+  destruct (rrun_snap (reach_sim (ri_cfg i)) (ri_kind i) (init (ri_init i)) (ri_calls i)) as [rs m].
+  cbn [fst snd] in *. rewrite Hbad. cbn [ofB]. cbn [Z.eqb negb]. rewrite Hrs. reflexivity.
+Qed.
